@@ -635,7 +635,14 @@ class Producer(object):
                     # them all below. Set failure for errback to callers if we
                     # are all out of retries
                     failure, result = result, []  # no succesful results, retry
-                    failed_payloads = [(p, failure) for p in payloadsByTopicPart.values()]
+                    # Retry only the payloads that are still unresolved: on a
+                    # retry, payloads acknowledged by an earlier attempt were
+                    # not part of this request and must not be sent again.
+                    failed_payloads = [
+                        (p, failure)
+                        for t_and_p, p in payloadsByTopicPart.items()
+                        if any(not d.called for d in deferredsByTopicPart[t_and_p])
+                    ]
                 else:
                     # Was the request cancelled?
                     if not result.check(tid_CancelledError):
